@@ -37,6 +37,11 @@ pub struct MirrorCase {
     /// peer-drop fault: the receiver (resp. relay) store is dropped after this many polls
     pub drop_recv_after: Option<usize>,
     pub drop_relay_after: Option<usize>,
+    /// capacity of the producer's channel (None = unbounded) and of the relay's channel
+    #[serde(default)]
+    pub cap1: Option<usize>,
+    #[serde(default)]
+    pub cap2: Option<usize>,
 }
 
 pub struct Mirror {
@@ -138,7 +143,7 @@ impl Scenario for Mirror {
     }
     fn rule(&self) -> String {
         if self.property == "C19" {
-            "case = producer operation sequence (1-12 ops, <=5 vars) + poll targets for relay/receiver + peer-drop points; schedule = who runs at every channel operation (recorded decisions). Non-trivial: at least one poll ended on a cut strictly inside the stream (2 < mirror length < final producer length) or a peer drop fired mid-stream. Distinct = distinct (case hash, cut vector) pairs, cut vector = mirror length after every poll of every store".into()
+            "case = producer operation sequence (1-12 ops, <=5 vars) + poll targets for relay/receiver + peer-drop points + channel kinds (unbounded / bounded 0..4 per hop); schedule = who runs at every channel operation (recorded decisions). Non-trivial: at least one poll ended on a cut strictly inside the stream (2 < mirror length < final producer length) or a peer drop fired mid-stream. Distinct = distinct (case hash, cut vector) pairs, cut vector = mirror length after every poll of every store".into()
         } else {
             "same world as C19; verdict = structural canonicity (reduced, ordered, duplicate-free, constants first) and same-handle<=>same-function of every live store after every producer operation and every poll. Non-trivial/distinct as for C19".into()
         }
@@ -163,6 +168,16 @@ impl Scenario for Mirror {
             Some(p) if rng.chance(1, 10) => Some(rng.below(p.len() as u64 + 1) as usize),
             _ => None,
         };
+        let cap = |rng: &mut Rng| -> Option<usize> {
+            match rng.below(8) {
+                0..=4 => None,
+                5 => Some(0),
+                6 => Some(1),
+                _ => Some(rng.range(2, 4) as usize),
+            }
+        };
+        let cap1 = cap(rng);
+        let cap2 = cap(rng);
         MirrorCase {
             nvars,
             ops,
@@ -170,6 +185,8 @@ impl Scenario for Mirror {
             recv,
             drop_recv_after,
             drop_relay_after,
+            cap1,
+            cap2,
         }
     }
 
@@ -187,9 +204,16 @@ impl Scenario for Mirror {
             ref_res.push(t);
         }
 
-        let (s1, r1) = crossbeam_channel::unbounded::<BddNode>();
+        let mk = |cap: Option<usize>| match cap {
+            None => crossbeam_channel::unbounded::<BddNode>(),
+            Some(k) => crossbeam_channel::bounded::<BddNode>(k),
+        };
+        let (s1, r1) = mk(case.cap1);
         let p1 = r1.sim_probe();
-        let (s2, r2) = crossbeam_channel::unbounded::<BddNode>();
+        let (s2, r2) = mk(case.cap2);
+        if case.cap1.is_some() || (has_relay && case.cap2.is_some()) {
+            stats.inc("runs_with_bounded_channel");
+        }
         let p2 = r2.sim_probe();
 
         let prod_out: Mutex<ProducerOut> = Mutex::new(ProducerOut::default());
@@ -327,6 +351,7 @@ impl Scenario for Mirror {
         };
         let out = sched::run(dec, &cfg, bodies);
         stats.add("sched_steps", out.steps);
+        stats.add("blocked_waits", out.blocks);
         stats.add("context_switches", out.switches);
         stats.max("max_steps_per_run", out.steps);
 
@@ -484,6 +509,12 @@ impl Scenario for Mirror {
             let mut d = c.clone();
             d.relay = None;
             d.drop_relay_after = None;
+            out.push(d);
+        }
+        if c.cap1.is_some() || c.cap2.is_some() {
+            let mut d = c.clone();
+            d.cap1 = None;
+            d.cap2 = None;
             out.push(d);
         }
         if c.drop_recv_after.is_some() {
